@@ -7,6 +7,7 @@
   C02a / C02b from the recogniser packages).
 -/
 import GM.Props.C02c
+import GM.Props.Consts.Parser
 
 namespace GM.Props.C02
 open GM GM.Spec.CM
@@ -29,5 +30,18 @@ theorem expected_balanced (d : Doc) : Proof.CMSpecTree.balanced (expectedPieces 
 /-- `expected` depends on the structure only, never on a spelling choice (true by construction) -/
 theorem spell_choice_independent_expected (d : Doc) : expected (eraseDoc d) = expected d :=
   C02c.spell_choice_independent_expected d
+
+/-- (package consts) the regular expressions, tag list, limits and marker bytes of parser/*.go are the ones the block / inline models were written against (obligations over the regenerated GM.Gen.Consts; `./check` names the constant when one changes) -/
+theorem consts_html_block_regexps_tied : GM.Spec.Consts.allOk GM.Spec.Consts.htmlBlockRegexps = true := GM.Props.Consts.Parser.html_block_regexps_tied
+/-- (package consts) `allowedBlockTags` and the type 2-5 closers of parser/html_block.go are the block model's -/
+theorem consts_html_block_tags_tied : GM.Spec.Consts.allOk GM.Spec.Consts.htmlBlockTags = true := GM.Props.Consts.Parser.html_block_tags_tied
+/-- (package consts) the raw-HTML tag expressions of parser/raw_html.go are the ones the inline model's matchers were written against -/
+theorem consts_raw_html_regexps_tied : GM.Spec.Consts.allOk GM.Spec.Consts.rawHtmlRegexps = true := GM.Props.Consts.Parser.raw_html_regexps_tied
+/-- (package consts) the autolink expressions and bounds of parser/auto_link.go are the inline model's -/
+theorem consts_autolink_regexps_tied : GM.Spec.Consts.allOk GM.Spec.Consts.autolinkRegexps = true := GM.Props.Consts.Parser.autolink_regexps_tied
+/-- (package consts) the numeric limits of the parsers (label length 999, list start 9 digits, indents 3/4, fence 3, ATX 6, ...) are the models' -/
+theorem consts_limits_tied : GM.Spec.Consts.allOk GM.Spec.Consts.limits = true := GM.Props.Consts.Parser.limits_tied
+/-- (package consts) bullet / delimiter / fence / heading / emphasis marker bytes are the models' -/
+theorem consts_markers_tied : GM.Spec.Consts.allOk GM.Spec.Consts.markers = true := GM.Props.Consts.Parser.markers_tied
 
 end GM.Props.C02
